@@ -219,6 +219,42 @@ CHECKS["C07"] = {
     },
 }
 
+CHECKS["C20"] = {
+    "machine": "io",
+    "runs": {"quick": 40_000, "thorough": 1_500_000},
+    "chunk": {"quick": 500, "thorough": 2_000},
+    "budget_s": {"quick": 80, "thorough": 900},
+    "run_timeout": 60,
+    "manifest": {
+        "text": "Seeded histories of entry-point calls against a simulated disk and probe middlewares: (a) parse_string / write_string with every argument "
+                "pattern (given stack, addition, both -> ValueError, neither; list / tuple / one-shot iterator) of 0-3 order-sensitive probe and shipped "
+                "middlewares vs the explicit composition (Splitter + fold, fold + writer), compared by deep fingerprint; (b) parse_file / write_file over "
+                "CPython's real text and buffer layers on a raw device that injects short reads/writes, EINTR, EIO and ENOSPC, with encodings "
+                "{utf-8, latin-1, gbk, utf-16}, CR / CRLF / LF files, a simulated locale and platform newline, path / text file object / recording file object "
+                "targets and a pre-existing longer file: result == the string function on the decoded bytes, or the injected error escapes, never a silent partial result; "
+                "(c) the block-middleware result protocol for every block class. Sampling.",
+        "design_ref": "DESIGN.md section 3 / C20",
+        "note": "The io layers are CPython's; what is decided is the wrapper code around them (modes, encoding, newline, argument mapping, with-scoping). "
+                "'Decoded content' is accepted with or without universal-newline translation. A generator result of a block middleware may be spliced or rejected with TypeError; "
+                "an empty non-list collection is kept out of the generated space.",
+        "technique": "deterministic simulation: raw-device fault injection under the real io stack + probe middlewares, differential oracle vs explicit composition",
+    },
+    "extra": {
+        "rule": "each run = simulated locale / platform newline / buffer size, 1-2 docgen documents, 2-8 ops among parse_string, write_string, put+parse_file, "
+                "[plant+]write_file, block_mw, each with its own stack arguments and raw fault plan; distinct = distinct event-log shape incl. result digests; "
+                "non-trivial = at least one call produced a compared result.",
+        "state_measure": "distinct (call, argument pattern, stack classes | encoding, fault kinds fired, outcome class) tuples",
+        "expected_probes": ["both_args_value_error", "multibyte_split_across_raw_reads", "eintr_inside_write", "short_write_retried", "enospc_write_propagated",
+                            "eio_write_propagated", "eio_read_propagated", "decode_error_propagated", "locale_unencodable_propagated", "utf16_bom",
+                            "preexisting_longer_file", "fileobj_recording_exact", "cr_or_crlf_file", "generator_result_rejected"]
+                           + ["returns_" + k for k in ("none", "empty_list", "empty_tuple", "same", "new", "list2", "tuple3", "gen", "int", "obj", "str", "list_bad")],
+        "components": {"real": REAL_COMMON + ["parse_string / parse_file / write_string / write_file", "default stacks", "BlockMiddleware.transform", "shipped middlewares mixed into stacks"],
+                       "stub": ["raw device + directory: SimRaw / SimDisk", "builtins.open as seen by bibtexparser.entrypoint", "locale / platform newline (simulated)",
+                                "probe middlewares TagBlock / TagLib / DropComments / Protocol", "recording file object"]},
+        "assumptions": ["write_file(parse_stack=, append_middleware=) are mapped to write_string(unparse_stack=, prepend_middleware=) as the signature documents"],
+    },
+}
+
 _PURE = ("pure function of its argument: no stream, no state kept between calls, no collaborator that can fail, no schedule or clock; "
          "the only thing a harness could vary is the input, which is input generation / bounded enumeration, not deterministic simulation (DESIGN.md section 1)")
 
